@@ -25,6 +25,7 @@ Definition pflat : ty := TNamed "PF" (TStruct [("A", TPtr t_int32); ("P", TPtr p
 Definition deep3 : ty := TNamed "D3" (TStruct [("D", TSlice (TPtr leaf)); ("N", t_int32)]).
 Definition deep2 : ty := TNamed "D2" (TStruct [("C", TMap t_string (TPtr deep3)); ("S", t_string)]).
 Definition deep1 : ty := TNamed "D1" (TStruct [("B", TPtr (TSlice (TPtr deep2)))]).
+Definition pscal : ty := TNamed "PSc" (TStruct [("A", TPtr t_int32); ("S", t_string); ("N", t_int32); ("Q", TPtr t_string)]).   (* scalars and pointers to scalars only *)
 Definition kind : ty := TNamed "Kind" t_int32.            (* a named scalar *)
 Definition label : ty := TNamed "Label" t_string.         (* a named string scalar *)
 
@@ -156,7 +157,11 @@ Definition multi : list ty :=
    (* slices of structs whose only indirections are pointers *)
    TStruct [("Fs", TSlice pflat); ("FPs", TSlice (TPtr pflat)); ("NF", TNamed "PFs" (TSlice pflat)); ("One", pflat)];
    (* deep nesting: a parser that stops descending after some number of levels loses the inner fields *)
-   TStruct [("A", TPtr deep1); ("Z", t_int32)]].
+   TStruct [("A", TPtr deep1); ("Z", t_int32)];
+   (* several fields of ONE named struct type with the same pointer-ness (code emitted for one must not serve the other), and a
+      nested struct made of scalars and pointers to scalars only, as field, pointer, element and map value *)
+   TStruct [("From", plain); ("To", plain); ("Src", TPtr leaf); ("Dst", TPtr leaf); ("PS", pscal); ("PP", TPtr pscal);
+            ("PL", TSlice pscal); ("PM", TMap t_string (TPtr pscal))]].
 
 Definition rep_shapes : list ty :=
   dedup_ty (shapes1 rep_skinds ++ shapes2 [SString; SInt KInt32] [SInt KInt32; SString]).
